@@ -91,7 +91,8 @@ def T(uid, fault='none', raises='none', cores=1):
 
 
 class Scenario(object):
-    def __init__(self, tasks, bulks=None, cancels=(), ncores=2):
+    def __init__(self, tasks, bulks=None, cancels=(), ncores=2, lossy=False):
+        self.lossy   = lossy      # non-final state notifications may get lost
         self.tasks   = tasks
         self.bulks   = bulks or [[t['uid'] for t in tasks]]
         self.cancels = [list(c) for c in cancels]
@@ -400,6 +401,8 @@ class PipelineRig(object):
         for pub, msgs in self.smsgs.items():
             if msgs:
                 en.append('deliver:' + pub)
+                if self.scn.lossy and all(t['state'] not in rps.FINAL for t in ru.as_list(msgs[0]['arg'])):
+                    en.append('drop:' + pub)
         if self.unsched:
             en.append('unsched')
         for uid, p in self.procs.items():
@@ -508,6 +511,9 @@ class PipelineRig(object):
             msg = self.smsgs[arg].pop(0)
             cur['uids'] = [[t['uid'], t['state']] for t in ru.as_list(msg['arg'])]
             self.tm._state_sub_cb(rpc.STATE_PUBSUB, msg)
+        elif kind == 'drop':
+            msg = self.smsgs[arg].pop(0)
+            cur['uids'] = [[t['uid'], t['state']] for t in ru.as_list(msg['arg'])]
         elif kind == 'unsched':
             t = self.unsched.pop(0)
             cur['uids'] = [t['uid']]
